@@ -17,9 +17,11 @@ Langs == {"python", "typescript", "rust"}
 \* value ids; the concrete spelling per language is the harness's table
 \*  1: 7   2: 37   3: 4200   4: 3.14   5: 0x2A (= 42)   6: 1_000_000   7: 1e6   8: 100_i32 (rust only)   9: 250
 \*  10: 0x1f4 (= 500; lowercase hex whose tail looks like a Rust type suffix: f + digits)
-Values == 1..10
+\*  11: 0xFF (= 255)   12: 2_000   13: 4e2 - used only in "lone" files: one literal, no other digit anywhere in the text
+Values == 1..13
+LoneValues == 11..13
 IsSmallInt(v, maxSmall) == (v = 1 /\ 7 <= maxSmall)          \* only value 7 is a candidate small integer
-ValueOk(lang, v) == v # 8 \/ lang = "rust"
+ValueOk(lang, v) == (v # 8 \/ lang = "rust") /\ v \notin LoneValues
 
 Common   == {"assign", "callArg", "returnExpr", "defaultParam", "arrayElem", "mapValue", "binop", "compare",
              "index", "twoOnLine", "classAttr"}
@@ -61,11 +63,13 @@ SetMaxSmall(k)   == ~done /\ maxSmall = 10 /\ k \in {3, 20} /\ maxSmall' = k /\ 
 SetKind(k)       == ~done /\ fileKind = "plain" /\ allowed = {} /\ fileKind' = k /\ UNCHANGED <<lang, allowed, maxSmall, done>>
 Finish           == ~done /\ done' = TRUE /\ UNCHANGED <<lang, allowed, maxSmall, fileKind>>
 Next == (\E v \in Values : AddAllowed(v)) \/ (\E k \in {3, 20} : SetMaxSmall(k))
-        \/ (\E k \in {"test", "definition"} : SetKind(k)) \/ Finish
+        \/ (\E k \in {"test", "definition", "lone"} : SetKind(k)) \/ Finish
 Spec == Init /\ [][Next]_vars
 
+\* a "lone" file: nothing but one function returning one literal in a special spelling, default configuration
+ItemsOf(l, fk) == IF fk = "lone" THEN {<<"returnExpr", v>> : v \in LoneValues} ELSE Items(l)
 Count(l, a, ms, fk, it) ==
-    IF fk # "plain" THEN 0
+    IF fk \notin {"plain", "lone"} THEN 0
     ELSE IF it[2] \in a THEN 0
     ELSE IF ExemptSlot(it[1], it[2], ms) THEN 0
     ELSE Mult(it[1])
@@ -82,5 +86,5 @@ NonLitNever == TRUE     \* non-literal items are not in Items: nothing may ever 
 
 Emit == done => PrintT(<<"CASE", ToJson([lang |-> lang, allowed |-> allowed, maxSmall |-> maxSmall, fileKind |-> fileKind,
             expected |-> {[slot |-> it[1], v |-> it[2], n |-> Count(lang, allowed, maxSmall, fileKind, it)] :
-                              it \in {x \in Items(lang) : Count(lang, allowed, maxSmall, fileKind, x) > 0}}])>>)
+                              it \in {x \in ItemsOf(lang, fileKind) : Count(lang, allowed, maxSmall, fileKind, x) > 0}}])>>)
 =============================================================================
